@@ -28,6 +28,8 @@ import json
 import os
 import shutil
 import tempfile
+import traceback
+import warnings
 
 from harness import common, rxsuite
 from harness.common import Model, canon
@@ -547,7 +549,10 @@ def parse_for_model(wire, path, ref, extra_tests):
     -> (parses, isfile list, eqs, checker entry, results)"""
     from compare_locales import parser, checks
     from compare_locales.paths import File, REFERENCE_LOCALE
-    p = parser.getParser(path)
+    try:
+        p = parser.getParser(path)
+    except UserWarning:
+        return [], [], [], [canon(path), []], []
     parses, files, ref_ents = [], [], []
     if ref is not None and os.path.isfile(ref):
         files.append(canon(ref))
@@ -718,7 +723,7 @@ def suite_entity(chk, model):
     from compare_locales.lint.linter import EntityLinter
     rng = chk.rng
     cases, impl, wires = [], [], []
-    for _ in range(chk.n(3000, 40000)):
+    for _ in range(chk.n(6000, 60000)):
         text, words = synth_text(rng)
         rtext, rwords = synth_text(rng)
         family = rng.choice([["entity", "junk"], ["dtd", "junk"], ["android", "xmljunk"],
@@ -936,7 +941,7 @@ def suite_lint(chk, model, tmp):
     from compare_locales import paths, parser
     rng = chk.rng
     cases, impl, reqs, wires = [], [], [], []
-    for i in range(chk.n(150, 1500)):
+    for i in range(chk.n(300, 2500)):
         proj = os.path.join(tmp, "p%d" % i)
         how = rng.choice(["default", "mirror", "l10n-base"])
         # references live where the lookup will look: <refroot>/en/... (mirror) or
@@ -1024,8 +1029,10 @@ FMT_BY_NAME = {f.name: f for f in FORMATS}
 def run(chk, runner_ok):
     model = Model("C19") if runner_ok else None
     try:
-        from pkg_resources import iter_entry_points
-        eps = list(iter_entry_points("compare_locales.parsers"))
+        with warnings.catch_warnings():
+            warnings.simplefilter("ignore")
+            from pkg_resources import iter_entry_points
+            eps = list(iter_entry_points("compare_locales.parsers"))
     except ImportError:
         eps = []
     if eps:
@@ -1035,13 +1042,15 @@ def run(chk, runner_ok):
                            "model (plugins); the harness runs with none installed")
     if runner_ok:
         rxsuite.run_rx(chk, groups=["c19"])
-    suite_hasparser(chk, model)
-    suite_position(chk, model)
-    suite_entity(chk, model)
     tmp = tempfile.mkdtemp(prefix="verif_c19_")
     try:
-        suite_file(chk, model, tmp)
-        suite_lint(chk, model, tmp)
+        for suite, args in ((suite_hasparser, ()), (suite_position, ()), (suite_entity, ()),
+                            (suite_file, (tmp,)), (suite_lint, (tmp,))):
+            try:
+                suite(chk, model, *args)
+            except Exception:  # noqa: a suite that cannot run is a failed check, not a crash
+                chk.fail("suite-crashed-" + suite.__name__, {"suite": suite.__name__},
+                         traceback.format_exc()[-1500:])
     finally:
         shutil.rmtree(tmp, ignore_errors=True)
     chk.trusted.append("Entity.equals, the parsers, os.path.isfile and the format checkers are "
